@@ -35,10 +35,25 @@ class CodeGenerator:
         # Full path for the new module
         module_pathname = os.path.join(folder, module_name + ".py")
 
+        def is_ours(module):
+            # a module is good only if it carries our cookie and the code:
+            # a file torn by an older version may have the first but not
+            # the second
+            return bool(module) and getattr(
+                module, 'BISTURI_PACKET_COOKIE', None
+            ) == cookie and (
+                not self.generate_for_pack or hasattr(module, 'pack_impl')
+            ) and (
+                not self.generate_for_unpack or hasattr(module, 'unpack_impl')
+            )
+
         # Try to import it first, if exists
         module = None
         if os.path.exists(module_pathname):
             try:
+                # always a fresh module: nothing of a previous load must
+                # survive in its namespace
+                sys.modules.pop(module_name, None)
                 module = SourceFileLoader(module_name,
                                           module_pathname).load_module()
             except Exception:
@@ -47,9 +62,7 @@ class CodeGenerator:
 
         # If no previously written module exists or its cooke does not match
         # ours, recreate the file and reload it
-        if not module or getattr(
-            module, 'BISTURI_PACKET_COOKIE', None
-        ) != cookie:
+        if not is_ours(module):
             # Delete the compiled file (.pyc)
             if module and hasattr(module, '__cached__'):
                 module_compiled_filename = module.__cached__
@@ -79,14 +92,13 @@ class CodeGenerator:
             # the meantime with the code of another packet class so we trust
             # in it only if it carries our cookie
             try:
+                sys.modules.pop(module_name, None)
                 module = SourceFileLoader(module_name,
                                           module_pathname).load_module()
             except Exception:
                 module = None
 
-            if not module or getattr(
-                module, 'BISTURI_PACKET_COOKIE', None
-            ) != cookie:
+            if not is_ours(module):
                 module = types.ModuleType(module_name)
                 exec(
                     compile(source, module_pathname, 'exec'), module.__dict__
